@@ -347,6 +347,10 @@ def termination_probe(case: dict):
 def oracle(case: dict):
     if case.get("kind") == "termination":
         return termination_probe(case)
+    if case.get("kind") == "read-scope":
+        from harness.props import c14
+
+        return c14.read_scope_oracle(case)
     dictIO = native.dictio()
     nodes = decode_nodes(case)
     try:
@@ -428,7 +432,7 @@ def _retype(exp, nodes, x, json_declared=frozenset()):
 
 
 def shrink(case):
-    if case.get("kind") == "termination":
+    if case.get("kind") in ("termination", "read-scope"):
         return
     nodes = case["nodes"]
     for i in range(len(nodes)):
@@ -543,6 +547,16 @@ def run(ctx):
             ctx.disagree("read_full (reference named like a placeholder)", c, ml[:600], f"returns, result holds {expect!r}")
     none_probe = mk_case(rng, [Node("a", "lit", None), Node("b", "ref", "a")], order=[0, 1], placement=["root", "root"])
     cases.append((none_probe, {"probe"}))
+    # the same values must come out when the dict is reduced to a scope by the READ OPTION (references from inside the
+    # scope to keys declared outside it)
+    for c, feats in cases[: ctx.n(120, 2000)]:
+        if "nest\n" in c["files"]["root"]:
+            for p in (["nest"], ["nest", "inner"]):
+                cs = {"kind": "read-scope", "files": c["files"], "p": p}
+                r = oracle(cs)
+                if r:
+                    ctx.oracle_fail(cs, r[0], r[1])
+                ctx.count(("rs", repr(c["files"]), tuple(p)), True, "read-scope")
     for c, feats in cases:
         r = oracle(c)
         if r:
